@@ -41,7 +41,7 @@ def gen(prop, stream, tier, avoid):
     knobs = {"cache_size": None, "reject_p": kn.pick([0.0, 0.0, 0.1, 0.25])}
     kind = rng.weighted([("curve", 4), ("surface", 4), ("volume", 1.5)])
     spec = shapes.gen_shape(rng, kind=kind, rational=True, max_size=5 if kind != "volume" else 3, max_degree=3)
-    nops = kn.pick([2, 3, 4, 5, 6, 8, 10, 14, 20])
+    nops = kn.pick([2, 3, 4, 5, 6, 8, 10, 14, 20] + ([30, 40] if tier == "thorough" else []))
     w_grid = kn.pick([0.0, 1.0, 3.0]) if "grid" not in avoid else 0.0
     ops = []
     for _ in range(nops):
